@@ -372,6 +372,8 @@ class PathRunner(object):
         self.rows = rows
         self.ways = ways
         self.labels = labels
+        self.only18 = False     # C18 runs: rebuild counts only (no C03
+        #                         comparison reports, no minimisation of them)
         self.base_image = D.baseline(start, rows=rows)
         B.restore(self.base_image, 'default')
         self.base_sig = D.stored_signature().serialize()
@@ -635,6 +637,8 @@ class PathRunner(object):
             new = [d for d in ev['desc'] if d not in base]
             if way == 'W2':
                 base = list(ev['desc'])
+            if self.only18:
+                continue
             for d in new:
                 violating = True
                 core = self.minimise(path, self.way_predicate(way, d))
@@ -734,6 +738,7 @@ def work(task):
     name, start, rows, depth, level, kinds, ways, first = task[:8]
     opts = dict(task[8]) if len(task) > 8 else {}
     pr = PathRunner(start, rows, ways)
+    pr.only18 = bool(opts.pop('only18', False)) if opts else False
     bv = bool(opts.pop('barrier_variants', False)) if opts else False
     pr.dfs(depth, level, kinds, prefix_filter=first, barrier_variants=bv,
            **{k: (tuple(v) if isinstance(v, list) else v)
@@ -741,8 +746,10 @@ def work(task):
     return name, pr.stats, pr.viol3, pr.viol18
 
 
-def tasks_for(tier):
-    """One task per (start, first step) so that deep searches shard."""
+def tasks_for(tier, prop='C03'):
+    """One task per (start, first step) so that deep searches shard.  For
+    C18 only the ways whose statement traces are counted (W2, W3) run, and
+    nothing of the C03 comparison is reported or minimised."""
     from vf import bootstrap
     bootstrap.setup()
     tasks = []
@@ -753,9 +760,15 @@ def tasks_for(tier):
         if only and only not in name:
             return
         firsts = AL.enabled(start, level=level, kinds=kinds, **opts)
+        if prop == 'C18':
+            ways = tuple(w for w in ways if w in ('W2', 'W3'))
+            if tier != 'quick' and depth >= 3:
+                ways = ('W2',)
         for i, st in enumerate(firsts):
             o = {k: (list(v) if isinstance(v, (list, tuple)) else v)
                  for k, v in opts.items()}
+            if prop == 'C18':
+                o['only18'] = True
             if barrier_variants:
                 o['barrier_variants'] = True
             tasks.append(('%s#%d' % (name, i), start, rows, depth, level,
@@ -798,8 +811,11 @@ def tasks_for(tier):
     else:
         shard('reuse-d5', narrow_start(), 'R2', 5, 'tiny', REUSE_KINDS,
               ('W2', 'W3'))
+        # (285 806 paths: the stepwise-vs-batched comparison only; the
+        # Evolver pipeline and the second processing run at depth 3 in
+        # narrow-barrier-d3)
         shard('narrow-d4', narrow_start(), 'R2', 4, 'lite', NARROW_KINDS,
-              ('W2', 'W5', 'W3'))
+              ('W2',))
         shard('narrow-barrier-d3', narrow_start(), 'R2', 3, 'lite',
               NARROW_KINDS + ('SQLBarrier',), ('W2', 'W5', 'W3', 'W4'))
         shard('two-model-d3', two_model_start(), 'R2', 3, 'lite',
@@ -819,8 +835,8 @@ def tasks_for(tier):
     return tasks
 
 
-def run_both(tier, seed):
-    tasks = tasks_for(tier)
+def run_both(tier, seed, prop='C03'):
+    tasks = tasks_for(tier, prop)
     total = {}
     c3 = findings.Collector('C03')
     c18 = findings.Collector('C18')
@@ -991,7 +1007,7 @@ def c18_chain_scenarios(coll, stats, tier):
 
 def run(tier, seed, confirm=True, prop='C03'):
     t0 = time.time()
-    tasks, total, c3, c18 = run_both(tier, seed)
+    tasks, total, c3, c18 = run_both(tier, seed, prop)
     if prop == 'C18':
         from vf import bootstrap
         bootstrap.setup()
